@@ -36,6 +36,8 @@ func init() {
 			ruleGroupRejectionUndo(c, "R11")
 			ruleStrictValidated(c, "R12")
 			ruleInternalKeyIsNotAMethod(c, "R14")
+			ruleInterceptorSelection(c, "R15")
+			rulePoolReleaseOnce(c, "R16")
 		},
 	})
 }
@@ -611,6 +613,38 @@ func ruleHandlerLookup(c *Ctx, rule string) {
 		if !isConst {
 			// single tail: `h, found := node.handlers[method]; if !found { h = node.handlers[405] }; return node, h, found`
 			good, why := false, "the served flag is "+c.O.Of(okv).String()
+			// the flag may be a conjunction: found && method != <405 key>
+			flag := okv
+			foundV := okv
+			if phi, isPhi := okv.(*ssa.Phi); isPhi {
+				var last ssa.Value
+				okShape := true
+				for i, e := range phi.Edges {
+					if k, isC := e.(*ssa.Const); isC && k.Value != nil && k.Value.ExactString() == "false" {
+						// the edge on which an earlier conjunct failed
+						pb := phi.Block().Preds[i]
+						if ifi, isIf := pb.Instrs[len(pb.Instrs)-1].(*ssa.If); isIf {
+							if ex2, isEx2 := ifi.Cond.(*ssa.Extract); isEx2 && ex2.Index == 1 {
+								foundV = ex2
+								continue
+							}
+						}
+						okShape = false
+						continue
+					}
+					if last != nil {
+						okShape = false
+					}
+					last = e
+				}
+				if okShape && last != nil {
+					if bo, isBO := last.(*ssa.BinOp); isBO && bo.Op == token.NEQ && bo.X == ssa.Value(methodP) {
+						if kc, isC := bo.Y.(*ssa.Const); isC && an.ConstKey(kc) == a.NotAllowedKey && foundV != okv {
+							okv = foundV // the remaining conjunct is the found bit; the other one excludes the internal key
+						}
+					}
+				}
+			}
 			if ex, isEx := okv.(*ssa.Extract); isEx && ex.Index == 1 {
 				if lk, isLk := ex.Tuple.(*ssa.Lookup); isLk && lk.CommaOk {
 					base, isH := fieldLoadOf(lk.X, a.NodeT, a.FHandlers)
@@ -627,6 +661,12 @@ func ruleHandlerLookup(c *Ctx, rule string) {
 								for si := range pb.Succs {
 									if pb.Succs[si] == phi.Block() && commaOkEdge(pb, si, func(m, k ssa.Value) bool { return m == lk.X && k == lk.Index }) {
 										foundEdge = true
+									}
+									// selected by the returned flag itself
+									if cond, onTrue := an.EdgeCond(pb, si); cond != nil && pb.Succs[si] == phi.Block() {
+										if v, neg := stripNot(cond); v == flag && onTrue != neg {
+											foundEdge = true
+										}
 									}
 								}
 								switch x := e.(type) {
